@@ -130,6 +130,36 @@ func indexBoundedByLen(b *ssa.BasicBlock, idx ssa.Value, xv ssa.Value) bool {
 			return true
 		}
 	}
+	// a count-down: i starts at len(x)-1 (or a length known equal), only ever decreases, and the
+	// index is used under i >= 0
+	if phi, ok := idx.(*ssa.Phi); ok {
+		startOK, stepOK := false, true
+		for _, e := range phi.Edges {
+			if sub, isSub := e.(*ssa.BinOp); isSub && sub.Op == token.SUB {
+				if k, isK := constInt(sub.Y); isK && k >= 1 {
+					if sub.X == ssa.Value(phi) {
+						continue // i -= k
+					}
+					if same(sub.X) {
+						startOK = true // len - k
+						continue
+					}
+				}
+			}
+			stepOK = false
+		}
+		if startOK && stepOK {
+			for _, f := range facts(b) {
+				c, ok := normFact(f)
+				if !ok {
+					continue
+				}
+				if k, isK := constInt(c.Y); isK && c.X == idx && ((c.Op == token.GEQ && k >= 0) || (c.Op == token.GTR && k >= -1)) {
+					return true
+				}
+			}
+		}
+	}
 	return false
 }
 
